@@ -452,6 +452,24 @@ def run_history(d, calls):
     return {"results": results}
 
 
+def ordered_members(doc):
+    """every member list of the document IN ITS ORDER (ids, hrefs for includes)"""
+    out = {}
+    for name, val in inspect.getmembers(doc):
+        if isinstance(val, list) and not name.endswith("_") and val:
+            out[name] = [str(getattr(e, "id", None) if getattr(e, "id", None) is not None else getattr(e, "href", "?")) for e in val]
+    return out
+
+
+def ordered_call(d, c):
+    LAST_DOCS.clear()
+    r = run_call(d, c)
+    out = {"ok": bool(r.get("ok")), "err": r.get("err"), "order": {k: ordered_members(doc) for k, doc in LAST_DOCS.items()}}
+    for k, doc in LAST_DOCS.items():
+        out.setdefault("nets", {})[k] = strip_indices(net_dump(doc))
+    return out
+
+
 def run_call(d, c):
     if c.get("cwd"):     # the working directory is part of the input of a relative-path call: set here, restored on every path
         old = os.getcwd()
@@ -876,6 +894,9 @@ def main():
             r = in_child(lambda: parser_sched(d, job["fileA"], job["fileB"], job["order"]))
         elif k == "parser_solo":
             r = in_child(lambda: parser_solo(d, job["file"]))
+        elif k == "ordered":       # every call in its own fresh fork of THIS interpreter (hash seed / flags of the process)
+            r = {"ok": True, "value": [in_child(lambda c=c: ordered_call(d, c)) for c in job["calls"]],
+                 "hashseed": os.environ.get("PYTHONHASHSEED"), "optimize": sys.flags.optimize}
         elif k == "optlist":
             r = in_child(optlist)
         elif k == "warnings_probe":
